@@ -72,6 +72,17 @@ static const char * http_request_check_uri_strict (const uint8_t * const restric
 
 __attribute_nonnull__()
 __attribute_pure__
+static const char * http_request_check_uri_fragment (const char * const restrict s, const uint_fast32_t len) {
+    /* URL normalization removes fragment without examining it */
+    const char * const f = memchr(s, '#', len);
+    return f
+      ? http_request_check_uri_strict((const uint8_t *)f,
+                                      len - (uint_fast32_t)(f - s))
+      : NULL;
+}
+
+__attribute_nonnull__()
+__attribute_pure__
 static const char * http_request_check_line_strict (const char * const restrict s, const uint_fast32_t len) {
     for (uint_fast32_t i = 0; i < len; ++i) {
         if (__builtin_expect( (((const uint8_t *)s)[i]<32), 0) && s[i] != '\t')
@@ -604,7 +615,8 @@ http_request_validate_pseudohdrs (request_st * const restrict r, const int schem
     const uint32_t len = buffer_clen(&r->target);/*(http_header_strict)*/
     const char * const x = (http_parseopts & HTTP_PARSEOPT_HEADER_STRICT)
       ? (http_parseopts & HTTP_PARSEOPT_URL_NORMALIZE_CTRLS_REJECT)
-          ? NULL /* URI will be checked in http_request_parse_target() */
+          ? /* URI will be checked in http_request_parse_target() */
+            http_request_check_uri_fragment(r->target.ptr, len)
           : http_request_check_uri_strict((const uint8_t *)r->target.ptr, len)
       : http_request_check_line_minimal(r->target.ptr, len);
     return (NULL == x)
@@ -916,7 +928,8 @@ static int http_request_parse_reqline(request_st * const restrict r, const char 
     const char * const x = (http_parseopts & HTTP_PARSEOPT_HEADER_STRICT)
       ? ((http_parseopts & HTTP_PARSEOPT_URL_NORMALIZE_CTRLS_REJECT)
          && HTTP_METHOD_CONNECT != r->http_method)
-          ? NULL /* URI will be checked in http_request_parse_target() */
+          ? /* URI will be checked in http_request_parse_target() */
+            http_request_check_uri_fragment(uri, len)
           : http_request_check_uri_strict((const uint8_t *)uri, len)
       : memchr(ptr, '\0', hoff[hoff[0]]);/* check entire headers set for '\0' */
     if (x)
